@@ -33,12 +33,13 @@ type callRec struct {
 }
 
 type c05Chain struct {
-	xfers    map[uint64]*xferRec
-	maxID    uint64
-	calls    map[uint64]*callRec
-	maxCall  uint64
-	maxBatch uint64
-	batches  map[string]bool // live batch ids (token|nonce)
+	xfers        map[uint64]*xferRec
+	maxID        uint64
+	calls        map[uint64]*callRec
+	maxCall      uint64
+	maxBatch     uint64
+	batches      map[string]bool // live batch ids (token|nonce)
+	bothReported map[uint64]bool
 }
 
 type c05Model struct {
@@ -48,7 +49,7 @@ type c05Model struct {
 func newC05(st *BridgeSt) *c05Model {
 	m := &c05Model{ch: map[string]*c05Chain{}}
 	for _, c := range st.Chains {
-		m.ch[c.Name] = &c05Chain{xfers: map[uint64]*xferRec{}, calls: map[uint64]*callRec{}, batches: map[string]bool{}}
+		m.ch[c.Name] = &c05Chain{xfers: map[uint64]*xferRec{}, calls: map[uint64]*callRec{}, batches: map[string]bool{}, bothReported: map[uint64]bool{}}
 	}
 	return m
 }
@@ -462,6 +463,19 @@ func (m *c05Model) check(r *Run, c *bridgeChecks, s *Step, o *Outcome) []Violati
 			}
 		}
 		r.State(fmt.Sprintf("%s:pool%d/b%d/c%d", ch.Name, min(len(post.Pool), 5), min(len(post.Batches), 4), min(len(post.Calls), 4)))
+		// settled once, seen from both chains: a transfer that was refunded to its creator must not also
+		// have been paid out by the external contract (the model of FxBridgeLogic.sol is the witness)
+		var xids []uint64
+		for id := range ch.Ext.ExecutedTxIDs {
+			xids = append(xids, id)
+		}
+		sort.Slice(xids, func(i, j int) bool { return xids[i] < xids[j] })
+		for _, id := range xids {
+			if rec, ok := mc.xfers[id]; ok && rec.State == "refunded" && !mc.bothReported[id] {
+				mc.bothReported[id] = true
+				vs = append(vs, viol("settled-once", "refunded-and-executed-on-external-chain", "%s: transfer %d was refunded to %s and also paid out by the external contract", ch.Name, id, rec.Sender))
+			}
+		}
 	}
 	return vs
 }
